@@ -32,18 +32,31 @@ Definition updc (c : nat) (f : cm -> cm) (m : ms) : ms :=
   mkMs (k_fired m) (k_cause m) (k_server m) (Nat.max (k_n m) (S c))
        (fun i => if Nat.eqb i c then f (k_conns m c) else k_conns m i) (k_snap m).
 
+(* counter updates *)
+Definition cm_conn (x : cm) := mkCm true (m_accepted x) (m_spawned x) (m_told x) (m_done x) (m_hb x) (m_begun x) (m_envdone x) (m_resp x) (m_fault x).
+Definition cm_acc (x : cm) := mkCm (m_connected x) true (m_spawned x) (m_told x) (m_done x) (m_hb x) (m_begun x) (m_envdone x) (m_resp x) (m_fault x).
+Definition cm_sp (x : cm) := mkCm (m_connected x) (m_accepted x) true (m_told x) (m_done x) (m_hb x) (m_begun x) (m_envdone x) (m_resp x) (m_fault x).
+Definition cm_told (x : cm) := mkCm (m_connected x) (m_accepted x) (m_spawned x) (S (m_told x)) (m_done x) (m_hb x) (m_begun x) (m_envdone x) (m_resp x) (m_fault x).
+Definition cm_done (x : cm) := mkCm (m_connected x) (m_accepted x) (m_spawned x) (m_told x) true (m_hb x) (m_begun x) (m_envdone x) (m_resp x) (m_fault x).
+(* a handler invocation counts in m_hb only before the signal *)
+Definition cm_hand (fired : bool) (x : cm) := mkCm (m_connected x) (m_accepted x) (m_spawned x) (m_told x) (m_done x) (if fired then m_hb x else S (m_hb x)) (m_begun x) (m_envdone x) (m_resp x) (m_fault x).
+Definition cm_begin (x : cm) := mkCm (m_connected x) (m_accepted x) (m_spawned x) (m_told x) (m_done x) (m_hb x) (S (m_begun x)) (m_envdone x) (m_resp x) (m_fault x).
+Definition cm_env (x : cm) := mkCm (m_connected x) (m_accepted x) (m_spawned x) (m_told x) (m_done x) (m_hb x) (m_begun x) (S (m_envdone x)) (m_resp x) (m_fault x).
+Definition cm_resp (x : cm) := mkCm (m_connected x) (m_accepted x) (m_spawned x) (m_told x) (m_done x) (m_hb x) (m_begun x) (m_envdone x) (S (m_resp x)) (m_fault x).
+Definition cm_fault (x : cm) := mkCm (m_connected x) (m_accepted x) (m_spawned x) (m_told x) (m_done x) (m_hb x) (m_begun x) (m_envdone x) (m_resp x) true.
+
 Definition track (m : ms) (o : oev) : ms :=
   match o with
-  | OConnect c => updc c (fun x => mkCm true (m_accepted x) (m_spawned x) (m_told x) (m_done x) (m_hb x) (m_begun x) (m_envdone x) (m_resp x) (m_fault x)) m
-  | OAccept c => updc c (fun x => mkCm (m_connected x) true (m_spawned x) (m_told x) (m_done x) (m_hb x) (m_begun x) (m_envdone x) (m_resp x) (m_fault x)) m
-  | OSpawn c => updc c (fun x => mkCm (m_connected x) (m_accepted x) true (m_told x) (m_done x) (m_hb x) (m_begun x) (m_envdone x) (m_resp x) (m_fault x)) m
-  | OTold c => updc c (fun x => mkCm (m_connected x) (m_accepted x) (m_spawned x) (S (m_told x)) (m_done x) (m_hb x) (m_begun x) (m_envdone x) (m_resp x) (m_fault x)) m
-  | ODone c => updc c (fun x => mkCm (m_connected x) (m_accepted x) (m_spawned x) (m_told x) true (m_hb x) (m_begun x) (m_envdone x) (m_resp x) (m_fault x)) m
-  | OHandler c => updc c (fun x => mkCm (m_connected x) (m_accepted x) (m_spawned x) (m_told x) (m_done x) (if k_fired m then m_hb x else S (m_hb x)) (m_begun x) (m_envdone x) (m_resp x) (m_fault x)) m
-  | OBegin c => updc c (fun x => mkCm (m_connected x) (m_accepted x) (m_spawned x) (m_told x) (m_done x) (m_hb x) (S (m_begun x)) (m_envdone x) (m_resp x) (m_fault x)) m
-  | OEnvDone c => updc c (fun x => mkCm (m_connected x) (m_accepted x) (m_spawned x) (m_told x) (m_done x) (m_hb x) (m_begun x) (S (m_envdone x)) (m_resp x) (m_fault x)) m
-  | OResp c => updc c (fun x => mkCm (m_connected x) (m_accepted x) (m_spawned x) (m_told x) (m_done x) (m_hb x) (m_begun x) (m_envdone x) (S (m_resp x)) (m_fault x)) m
-  | OFault c => updc c (fun x => mkCm (m_connected x) (m_accepted x) (m_spawned x) (m_told x) (m_done x) (m_hb x) (m_begun x) (m_envdone x) (m_resp x) true) m
+  | OConnect c => updc c cm_conn m
+  | OAccept c => updc c cm_acc m
+  | OSpawn c => updc c cm_sp m
+  | OTold c => updc c cm_told m
+  | ODone c => updc c cm_done m
+  | OHandler c => updc c (cm_hand (k_fired m)) m
+  | OBegin c => updc c cm_begin m
+  | OEnvDone c => updc c cm_env m
+  | OResp c => updc c cm_resp m
+  | OFault c => updc c cm_fault m
   | ORefused c => updc c (fun x => x) m
   | OSignal => mkMs true true (k_server m) (k_n m) (k_conns m) (k_conns m)
   | OLost | OMakeArm => mkMs (k_fired m) true (k_server m) (k_n m) (k_conns m) (k_snap m)
